@@ -75,7 +75,17 @@ Value& OpPUSExpression::value(Context& ctx) const
       {
         if (a1.isNull() || a2.isNull())
           return LVAL2(Value(Value::type_integer), a1, a2);
-        Value val(Integer(*a1.integer() >> *a2.integer()));
+        /* shift the unsigned pattern: zero fill, a negative displacement
+         * shifts to the other direction, all bits are shifted out from 64 */
+        uint64_t u = (uint64_t)(*a1.integer());
+        Integer d = *a2.integer();
+        if (d >= 64 || d <= -64)
+          u = 0;
+        else if (d < 0)
+          u <<= (unsigned)(-d);
+        else
+          u >>= (unsigned)d;
+        Value val((Integer)u);
         return LVAL2(val, a1, a2);
       }
       default:
